@@ -42,6 +42,25 @@ func rootOnce(c *Ctx) {
 				found[kind] = true
 				n++
 				key := "gen:" + g.Name + "/Exec/" + kind + "-root"
+				// with an operation-level directive the root runs inside the function literal handed to the operation middleware:
+				// the literal's creation site in the response closure stands for the call
+				origCall := call
+				var call ssa.Instruction = origCall
+				cl := cl
+				for cl.Parent() != nil && cl.Parent() != exec {
+					var mk ssa.Instruction
+					for _, b := range cl.Parent().Blocks {
+						for _, in := range b.Instrs {
+							if mc, ok := in.(*ssa.MakeClosure); ok && mc.Fn == ssa.Value(cl) {
+								mk = in
+							}
+						}
+					}
+					if mk == nil {
+						break
+					}
+					call, cl = mk, cl.Parent()
+				}
 				// (a) guarded by a bool cell of Exec
 				var flag ssa.Value
 				for _, f := range an.Facts(call) {
